@@ -162,7 +162,8 @@ def r18a(ctx: Context) -> None:
     for assign in assigns:
         value = assign.value
         text = norm(value)
-        if isinstance(value, ast.Attribute) and dotted(value).startswith("args."):
+        namespace_params = {a.arg for a in setter.node.args.args if a.annotation is not None and "Namespace" in ast.unparse(a.annotation)}  # type: ignore[attr-defined]
+        if isinstance(value, ast.Attribute) and isinstance(value.value, ast.Name) and value.value.id in namespace_params:
             kinds.append("argument")
         elif isinstance(value, ast.Call) and "get_string_property" in text:
             kinds.append("configuration")
